@@ -226,6 +226,21 @@ fn sample_ks(rng: &mut Rng, kmin: i128, kmax: i128, n: usize, domain: &[i128]) -
         }
         b <<= 1;
     }
+    // word boundaries of wide fields: every multiple of 2^32 in range (and a spread of multiples of 2^16), the
+    // intervals just below and at them
+    for (shift, cap) in [(32u32, 4096i128), (16, 512)] {
+        let unit = 1i128 << shift;
+        let (lo_m, hi_m) = (kmin.div_euclid(unit), hi.div_euclid(unit));
+        let count = hi_m - lo_m + 1;
+        let step = (count / cap).max(1);
+        let mut mlt = lo_m;
+        while mlt <= hi_m {
+            for c in [mlt * unit - 2, mlt * unit - 1, mlt * unit] {
+                v.push(c);
+            }
+            mlt += step;
+        }
+    }
     for _ in 0..n {
         let r = ((rng.u64() as u128) << 64 | rng.u64() as u128) % span;
         v.push(kmin + r as i128);
@@ -460,7 +475,7 @@ pub fn run(p: &Params) -> Outcome {
     }
     Outcome {
         ctx: total,
-        rule: format!("every float-typed field with a resolution ({} from the scan) + the three bias quantisers through one-entry messages and as one entry at a random place in a list of up to 14 others (other satellites and signals, for 1059/1065 also valid signals those messages have no code for); for sampled k over the whole range (dense at the ends, around zero and powers of two; all k when the range is small): inputs between g(k) and g(k+1) incl. half step +-ulps and round inputs (whole numbers, single-precision-exact values, short mantissas, short decimals); oracle: encoded value in {{k,k+1}}, |x-g| <= step/2 + slack (4 eps q step + 4 eps (|x|+|bias|+step)), monotone; inputs per interval are distinct by construction", n_scaled),
+        rule: format!("every float-typed field with a resolution ({} from the scan) + the three bias quantisers through one-entry messages and as one entry at a random place in a list of up to 14 others (other satellites and signals, for 1059/1065 also valid signals those messages have no code for); for sampled k over the whole range (dense at the ends, around zero, powers of two and multiples of 2^32 / 2^16; all k when the range is small): inputs between g(k) and g(k+1) incl. half step +-ulps and round inputs (whole numbers, single-precision-exact values, short mantissas, short decimals); oracle: encoded value in {{k,k+1}}, |x-g| <= step/2 + slack (4 eps q step + 4 eps (|x|+|bias|+step)), monotone; inputs per interval are distinct by construction", n_scaled),
         exhaustive: false,
         extra: json!({"scaled_fields": n_scaled}),
     }
